@@ -11,13 +11,14 @@ os.chdir(os.path.dirname(os.path.dirname(os.path.abspath(__file__))))
 
 props = [json.loads(l) for l in open("properties.jsonl")]
 checks, na = [], []
+READY = set(open("tools/ready.txt").read().split())
 PENDING = {}
 if os.path.exists("tools/pending.json"):
     PENDING = json.load(open("tools/pending.json"))
 for p in props:
     pid = p["id"]
     path = "vf/checks/%s.py" % pid.lower()
-    if not os.path.exists(path):
+    if not os.path.exists(path) or pid not in READY:
         na.append({"property_id": pid, "reason": PENDING.get(pid, "check not built yet in this tree (design in DESIGN.md section 4); nothing is claimed")})
         continue
     m = importlib.import_module("vf.checks." + pid.lower())
